@@ -275,6 +275,9 @@ func execCopy(c *CopyCase, st *Stats) *Violation {
 	checkAll := func(when string) *Violation {
 		for _, n := range nodes {
 			dn := dumpOf(n.vm)
+			if eventLogOn {
+				ev("dump", n.id, hashStr(dn))
+			}
 			dt, ok := twinDump[n.id]
 			if !ok {
 				dt = dumpOf(n.twin)
@@ -329,6 +332,7 @@ func execCopy(c *CopyCase, st *Stats) *Violation {
 			tn, tt := len(crtOf(n.vm).trace), len(crtOf(n.twin).trace)
 			r1 := applyOp(n.vm, op)
 			r2 := applyOp(n.twin, op)
+			ev("op", oi, r1, r2)
 			n.lineage = append(n.lineage, *op)
 			delete(twinDump, n.id)
 			st.Fault(op.Kind)
@@ -423,6 +427,7 @@ func interleaveOp(c *CopyCase, op *COp, nodes []*cnode, twinDump map[int]string,
 		<-done
 	}
 	ms.active = false
+	ev("interleave", ms.hash, ms.steps, ms.switches, strings.Join(res, "|"))
 	st.Fault("interleave")
 	st.ProbeN("context_switches", ms.switches)
 	if ms.midSw >= 2 {
